@@ -9,27 +9,27 @@ BASELINE_OFF = ("cd /repo && cargo nextest run --workspace --no-fail-fast --test
 CHECKS = {
  "C01": ("exploration", "exhaustive enumeration of SDK-encoded requests per operation x routing-relevant deviations x addressing/host configurations, and of the full raw product method x path kind x query-flag subsets x header subsets against a reference router derived from the Smithy model, on the real S3Service::call",
          "DESIGN §4 C01",
-         "Operation side: for all 96 operations the request aws-sdk-s3 encodes for base() and for each single deviation of each query/header-bound member, under 5 addressing x host-parser combinations, must reach exactly that backend method. Request side: 8 methods x 4 path kinds x every subset (size <=2, thorough 3) of ~55 query flags/members x all 8 subsets of the discriminating headers (~5e5 requests), the resolved route observed at the access hook and compared with a most-specific-match reference router built only from data/s3.json.",
+         "Operation side: for all 96 operations the request aws-sdk-s3 encodes for base() and for each single deviation of each query/header-bound member, under 5 addressing x host-parser combinations, must reach exactly that backend method. Request side: 8 methods x 4 path kinds x every subset (size <=2, thorough 3) of ~55 query flags/members x all 8 subsets of the discriminating headers (~5e5 requests), the resolved route observed at the access hook and compared with a most-specific-match reference router built only from data/s3.json. The object key is deviated too (blanks, + % & = / ? #, escape-shaped text incl. one whose second decoding is not UTF-8, non-ASCII, 1024 bytes).",
          "requests whose most-specific match is not unique, or which carry a sub-resource flag foreign to the denoted operation, are counted and not judged; flag subsets larger than the bound are not covered"),
  "C02": ("exploration", "bounded exhaustive enumeration (deviation bound 1, thorough 2) of operation inputs encoded by the official SDK and decoded by the adapter, field-wise comparison at a recording backend in a direct and a proxied configuration; every instance of each rejection mutation (duplicate, ill-typed, missing, length mismatch) on the SDK-encoded requests; on the real S3Service::call",
          "DESIGN §4 C02",
-         "For 95 operations base() and every single deviation (thorough: every pair on different members) of every modelled input member over the alphabet of its wire position is encoded by aws-sdk-s3 1.82 (independent of s3s's codecs), sent through the real service and compared member by member (streams by bytes) with what the recording backend received, both directly and through client -> adapter -> s3s-aws Proxy -> SDK -> second adapter. Disagreements are attributed to the conversion layer, the adapter's decoder or the wire. Rejection half: on each SDK-encoded request with every optional header/query/meta member present once, every instance of {duplicate with same/other value in either order, value outside the member's type, required member removed, Content-Length +-1/0, body one byte short} must give a 4xx S3 error and an empty backend log.",
+         "For 95 operations base() and every single deviation (thorough: every pair on different members) of every modelled input member over the alphabet of its wire position is encoded by aws-sdk-s3 1.82 (independent of s3s's codecs), sent through the real service and compared member by member (streams by bytes) with what the recording backend received, both directly and through client -> adapter -> s3s-aws Proxy -> SDK -> second adapter. Disagreements are attributed to the conversion layer, the adapter's decoder or the wire. Rejection half: on each SDK-encoded request with every optional header/query/meta member present once, every instance of {duplicate with same/other value in either order, value outside the member's type, required member removed, Content-Length +-1/0, body one byte short} must give a 4xx S3 error and an empty backend log. Ill-formed payloads (second root, text outside the root, every truncation of the SDK's full payload) must be refused by the whole adapter for every XML-bodied operation.",
          "aws-sdk-s3 is the trusted encoder; inputs the SDK refuses to build and members it adds itself are counted and listed, not judged; WriteGetObjectResponse is unreachable through a client (C01's listed finding); values outside the alphabets and >k simultaneous members are not covered"),
  "C03": ("exploration", "bounded exhaustive enumeration (deviation bound 1, thorough 2) of operation outputs returned by a scripted backend and decoded by the official SDK, x response metadata; for keep-alive completion the full product of backend completion delays (every millisecond over 3.5 tick periods, thorough 10) x outcomes x consumer polling disciplines under tokio's paused clock; on the real S3Service::call",
          "DESIGN §4 C03",
-         "For 95 operations base() and every single deviation (thorough: pairs) of every modelled output member, incl. a timestamp carrying a +08:00 offset, is returned by a scripted backend, serialised by the adapter and decoded by aws-sdk-s3, directly and through the proxied configuration, then compared member by member; every raw response is checked against the model's success status (206 iff content range) and for XML well-formedness; 5 extra-header sets x 5 status overrides on every operation. Keep-alive: CompleteMultipartUpload with backend completion after none/0..350 ms (thorough ..1000) or after n self-wakes, 10 outcomes (members set, late S3 errors), eager / spuriously-polling / slow consumers: body = declaration + whitespace + the byte-identical immediate document, header-bound members arrive as trailers named in the Trailer header, late errors are complete S3 error documents, the stream ends within one tick of completion, nothing follows the end, no lost wake-up.",
+         "For 95 operations base() and every single deviation (thorough: pairs) of every modelled output member, incl. a timestamp carrying a +08:00 offset, is returned by a scripted backend, serialised by the adapter and decoded by aws-sdk-s3, directly and through the proxied configuration, then compared member by member; every raw response is checked against the model's success status (206 iff content range) and for XML well-formedness; 5 extra-header sets x 5 status overrides on every operation. Keep-alive: CompleteMultipartUpload with backend completion after none/0..350 ms (thorough ..1000) or after n self-wakes, 10 outcomes (members set, late S3 errors), eager / spuriously-polling / slow consumers: body = declaration + whitespace + the byte-identical immediate document, header-bound members arrive as trailers named in the Trailer header, late errors are complete S3 error documents, the stream ends within one tick of completion, nothing follows the end, no lost wake-up. Every collected response is asked for its size hint and end-of-stream flag before every frame; the answers must agree with the bytes that follow.",
          "aws-sdk-s3 is the standards-conforming client (it does not read trailers; those are judged on raw frames); the number of filler frames is recorded, not asserted; representations the wire cannot distinguish (absent metadata vs empty map, absent LocationConstraint vs empty element) are settled on the raw response"),
  "C19": ("fault_enumeration", "exhaustive enumeration of fault positions, abandon points and crash points of object writes, and all task interleavings (preemption-bounded for 3 tasks) at file-system-call granularity under a controlled scheduler over tokio's blocking pool, on the real s3s-fs backend",
          "DESIGN §4 C19, §2 E3",
-         "Faults: body I/O error after each frame, each checksum algorithm wrong and right, corrupted signature of each chunk, through the real service. Abandon and crash points: the write future is dropped (both while its file-system call is queued and after it completed) or the tree is copied and restarted after every single step. Schedules: all interleavings of two writers, of writer + reader and of two writers to different objects (tens of thousands of complete executions), three tasks with a preemption bound of 2 (thorough 3); content and user metadata a later read returns must belong to one version; each execution replayable from its choice sequence; determinism of the scheduler is self-checked on every configuration.",
+         "Faults: body I/O error after each frame, each checksum algorithm wrong and right, corrupted signature of each chunk, through the real service. Abandon and crash points: the write future is dropped (both while its file-system call is queued and after it completed) or the tree is copied and restarted after every single step. Schedules: all interleavings of two writers, of writer + reader and of two writers to different objects (tens of thousands of complete executions), three tasks with a preemption bound of 2 (thorough 3); content and user metadata a later read returns must belong to one version; each execution replayable from its choice sequence; determinism of the scheduler is self-checked on every configuration. Part (e): a part upload is a write too - with and without an earlier good upload of part 1, a (re-)upload of the part fails after k of n frames or is dropped after every scheduler step, then the upload is completed and read: the good part exactly, or a refused completion and an untouched key.",
          "one step = one task runs from one file-system await to the next; finer interleavings (inside one tokio::fs call) and power-loss semantics (unsynced pages) are outside the space"),
  "C18": ("model_checking", "explicit-state breadth-first search with the real s3s-fs backend as transition function against a reference in-memory store; canonical-state hashing; full read set evaluated in every state",
          "DESIGN §4 C18, §2 E4",
-         "All histories over a small universe (quick: 1 bucket, 2 keys, 2 contents, 2 metadata values, 2 identities, 1 upload; thorough: 2 buckets, 3 keys, 4 contents up to 3 read buffers, 2-part uploads) are explored to a fixpoint of (model, disk) states; every transition runs on the implementation and is compared with the reference map, and in every reached state every key is read under every Range form, headed, listed under every prefix/start-after, and uploads are listed. Chained operations reach the non-initial states where the defects live (stale metadata, resurrected buckets).",
+         "All histories over a small universe (quick: 1 bucket, 2 keys, 2 contents, 2 metadata values, 2 identities, 1 upload; thorough: 2 buckets, 3 keys, 4 contents up to 3 read buffers, 2-part uploads) are explored to a fixpoint of (model, disk) states; every transition runs on the implementation and is compared with the reference map, and in every reached state every key is read under every Range form, headed, listed under every prefix/start-after, and uploads are listed. Chained operations reach the non-initial states where the defects live (stale metadata, resurrected buckets). Two further universes: parts 1..3 of one upload (each the backend's minimum part size plus its number, or 2 bytes; contents depend on the part number) uploaded and re-uploaded in every order and completed as [1], [1,2], [1,2,3], [2,1] - searched to the fixpoint - and one history of eleven parts uploaded in descending order: the object is the concatenation in part order, also read across the seam between parts.",
          "only property-defined observables are compared; where the statement is silent the model follows the implementation; universe sizes bound the histories; thorough is wall-capped and reports whether the fixpoint was reached"),
  "C17": ("exploration", "exhaustive enumeration of traversal-rich keys / copy sources / bucket names / upload ids x backend operations on the real s3s-fs backend, with whole-tree snapshot diff and marker search",
          "DESIGN §4 C17",
-         "All sequences of 1..3 segments over a 12-symbol traversal alphabet (with/without leading slash, plus deep escapes) x 18 operations at the S3 trait and GET/PUT/DELETE/copy through S3Service::call in three spellings, against a store with two marked buckets, a foreign open upload and a marked sentinel tree beside and above the root; after every operation the complete directory tree is diffed and everything read back is searched for foreign markers; plus all interleavings of two concurrent writers to different objects under the controlled scheduler.",
+         "All sequences of 1..3 segments over a 12-symbol traversal alphabet (with/without leading slash, plus deep escapes) x 18 operations at the S3 trait and GET/PUT/DELETE/copy through S3Service::call in three spellings, against a store with two marked buckets, a foreign open upload and a marked sentinel tree beside and above the root; after every operation the complete directory tree is diffed and everything read back is searched for foreign markers; plus all interleavings of two concurrent writers to different objects under the controlled scheduler. The history search of legitimate operations includes a key that turns another key into a directory, so that operations fail half-way and their failure paths are judged too.",
          "symbolic links are not part of the space; segment alphabet and length <=3 bound the keys"),
  "C13": ("exploration", "bounded exhaustive enumeration of values per type (all single-member deviations) and of every instance of each document mutation operator, with differential oracles and an independent tokenizer, on the real public XML codec",
          "DESIGN §4 C13",
@@ -65,7 +65,7 @@ CHECKS = {
          "bodies are the four stated ones (16..892 bytes); more than k simultaneous deviations only in the all-1-byte schedules; hyper's wire parser is below the seam"),
  "C08": ("fault_enumeration", "exhaustive single-fault injection at every position of reference-encoded uploads under three framings, judged by a reference decoder at the backend's body stream, on the real S3Service::call",
          "DESIGN §4 C08",
-         "Every single fault (bit flip, truncation at every offset, delete/duplicate/swap/splice/re-sign/resize of each chunk, trailing garbage, wrong or absent declared length) at every position of uploads of 0..66560 bytes in 0..3 chunks, each delivered as one frame, cut exactly at the fault, and in 1-byte frames. The oracle is a reference decoder run on the very same faulty bytes; what is judged is the byte string and terminal state of the stream the backend reads.",
+         "Every single fault (bit flip, truncation at every offset, delete/duplicate/swap/splice/re-sign/resize of each chunk, trailing garbage, wrong or absent declared length) at every position of uploads of 0..66560 bytes in 0..3 chunks, each delivered as one frame, cut exactly at the fault, and in 1-byte frames. The oracle is a reference decoder run on the very same faulty bytes; what is judged is the byte string and terminal state of the stream the backend reads. Every one-frame and cut-at-the-fault delivery is also sent without a Content-Length header (HTTP/2, chunked transfer).",
          "reference encoder validated on the AWS documentation example; in the 64 KiB chunk, data-byte flips and truncations are taken on a stride (stated in the evidence), all header bytes are covered"),
  "C07": ("exploration", "full-product enumeration of request classes x operations x service configurations with a reference monitor over the ordered event log, on the real S3Service::call",
          "DESIGN §4 C07",
@@ -77,11 +77,11 @@ CHECKS = {
          "clock read through the verif-hooks seam; expiry values outside [1,604800] or in non-canonical spelling are recorded, not judged"),
  "C11": ("exploration", "bounded exhaustive enumeration of V2-signed requests x single-component mutations x clock instants, differential against a reference V2 verifier, on the real S3Service::call",
          "DESIGN §4 C11",
-         "All histories of up to 3 V2 requests from two identities on one service instance; requests signed by a reference V2 signer (validated on the 4 documentation examples) over methods x paths x addressing style x every documented sub-resource x x-amz header shapes (incl. repeated lines in descending order) x Date/x-amz-date x header|presigned; each with every single-component mutation of the string-to-sign inputs and Expires on both sides of the clock.",
+         "All histories of up to 3 V2 requests from two identities on one service instance; requests signed by a reference V2 signer (validated on the 4 documentation examples) over methods x paths x addressing style x every documented sub-resource x x-amz header shapes (incl. repeated lines in descending order) x Date/x-amz-date x header|presigned; each with every single-component mutation of the string-to-sign inputs and Expires on both sides of the clock. Each of AWSAccessKeyId / Expires / Signature of a presigned URL is also given twice with another value, before or after the signed one: refused.",
          "clock read through the verif-hooks seam; sub-resource list as documented today (torrent not in the grid)"),
  "C05": ("exploration", "bounded exhaustive enumeration of signed requests x single-component mutations, differential against a reference verifier, on the real S3Service::call",
          "DESIGN §4 C05",
-         "All histories of up to 3 requests from two identities (honest / signed with the other identity's secret, two scopes, led by any other scheme) on one service instance, then a grid of honestly signed requests (5 methods x 15 paths x 10 query multisets x 10 signed-header shapes x payload/mode x HTTP/1.1|HTTP/2) times every applicable single-component mutation and 6 canonical-equivalent rewrites; every case runs through the real service and is compared with a reference verifier written from the AWS specification. Exhaustive over the stated grid: both directions of the iff (accept honest, reject every tampering) are decided per case.",
+         "All histories of up to 3 requests from two identities (honest / signed with the other identity's secret, two scopes, led by any other scheme) on one service instance, then a grid of honestly signed requests (5 methods x 15 paths x 10 query multisets x 10 signed-header shapes x payload/mode x HTTP/1.1|HTTP/2) times every applicable single-component mutation and 6 canonical-equivalent rewrites; every case runs through the real service and is compared with a reference verifier written from the AWS specification. Exhaustive over the stated grid: both directions of the iff (accept honest, reject every tampering) are decided per case. Paths include keys with empty segments (a path is never normalised); a slash of the path is doubled as a mutation.",
          "reference signer validated on the AWS documentation vectors at start-up and against the aws-sigv4 crate on every grid point (disagreeing points excluded and counted); values outside the grid and multi-component tampering are not covered"),
  "C20": ("exploration", "bounded exhaustive enumeration of pattern x input pairs and policy document shapes against a reference model, on the real code",
          "DESIGN §4 C20",
